@@ -247,10 +247,13 @@ class Ctx:
             return None, o + e
         return os.path.join(self.tmp, out), o + e
 
-    def cc_harness(self, out, sources, flags=(), what='harness', **kw):
+    def cc_harness(self, out, sources, flags=(), what='harness', loses=None, **kw):
         """Build a harness that also observes library internals.  If it does not compile (representation changed) rebuild
         it with -DVERIF_BLACKBOX (public interface only; the harness prints `?` for what it cannot see) and record the
-        broken internal-state correspondence; the plugin then compares observable results only (`self.blackbox`)."""
+        plugin then compares observable results only (`self.blackbox`).  `loses`: what the public-interface build cannot
+        exercise that the property needs (then the correspondence counts as broken); None when every operation and every
+        observable result of the property is still driven and compared - the tie is then the behavioural correspondence
+        alone, which is what the technique requires, and the change of representation is only noted in the evidence."""
         self.blackbox = False
         exe, log = self.cc(out, sources, flags, **kw)
         if exe:
@@ -259,8 +262,13 @@ class Ctx:
         exe, log2 = self.cc(out, sources, list(flags) + ['-DVERIF_BLACKBOX'], **kw)
         if exe:
             self.blackbox = True
-            self.broken.append(f'correspondence on internal state: {what} no longer compiles against the library\'s data '
-                               f'representation ({"; ".join(e.strip()[-160:] for e in err)}); rebuilt against the public interface only')
+            msg = (f'{what} no longer compiles against the library\'s data representation ({"; ".join(e.strip()[-160:] for e in err)}); '
+                   f'rebuilt against the public interface only')
+            self.cov['harness_public_interface_only'] = msg
+            if loses:
+                self.broken.append('correspondence: ' + msg + '; not exercised any more: ' + loses)
+            else:
+                self.notes.append(msg + '; field-by-field comparison of the structure skipped, observable results compared as before')
             return exe
         raise Unbuildable(f'{what} does not compile against the tree under check: ' + log[-1200:])
 
